@@ -1,5 +1,5 @@
 (* C05 -- macro usages.  Property theorems only; proofs live in PP/MacroFacts.v. *)
-From SV Require Import Eval EvalFacts MacroFacts.
+From SV Require Import Eval EvalFacts MacroFacts SplitFacts.
 
 (* Binding of formals: the actual if written, the default (or nothing) for an empty one, the
    default for an omitted one; the first formal left without value is the one reported. *)
@@ -65,3 +65,23 @@ Example C05_example_subst :   (* body  a``b `"a`" "a"  with a := X, b := Y *)
   substitute [([97], [88]); ([98], [89])] [32;97;96;96;98;32;96;34;97;96;34;32;34;97;34] =
   [88;89;32;34;88;34;32;34;97;34].
 Proof. vm_compute. reflexivity. Qed.
+
+(* Whole-word substitution.  On a body without quote, slash, backslash and backtick (identifiers,
+   numbers, operators, brackets, blanks), for every binding of the formals: the body is cut into its
+   maximal runs of identifier characters [A-Za-z0-9_] and of other characters (leading blanks
+   dropped); a run that is the name of a formal is replaced by the formal's value, every other run
+   is copied unchanged.  So a formal `a` is never replaced inside `ab`, `a1` or `_a`, and text that
+   merely contains the name is untouched. *)
+Theorem C05_split_plain : forall body,
+  forallb plain body = true -> split_text body = runs (drop_while is_ascii_ws body).
+Proof. exact split_text_plain. Qed.
+
+Theorem C05_whole_word_substitution : forall m body,
+  forallb plain body = true ->
+  substitute m body = concat_bytes (map (subst_word m) (runs (drop_while is_ascii_ws body))).
+Proof. exact substitute_plain. Qed.
+
+Example C05_whole_word_example :   (* body " a+ab*_a a1 a" with a := X: only the two free-standing a's are replaced *)
+  forallb plain [32;97;43;97;98;42;95;97;32;97;49;32;97] = true /\
+  substitute [([97], [88])] [32;97;43;97;98;42;95;97;32;97;49;32;97] = [88;43;97;98;42;95;97;32;97;49;32;88].
+Proof. vm_compute. split; reflexivity. Qed.
